@@ -595,7 +595,7 @@ inst!(avx2_one_raw, [props=C01 xprops=C05+C14 tier=thorough cfg=x86std t=1800 ro
 inst!(avx2_one_rraw, [props=C02 xprops=C05+C14 tier=thorough cfg=x86std t=1800 role=avx2-raw uw=rfind_raw.0:2;rfind_raw.1:4;byte_by_byte:17], 3,
     x86::raw::<40>(1, 1, true));
 #[cfg(any(vcfg_x86std, vcfg_x86none, vcfg_x86alloc, vcfg_x86avx2, vcfg_x86rel))]
-inst!(avx2_three_raw, [props=C01 xprops=C05+C14 tier=quick cfg=x86std t=1800 role=avx2-raw uw=find_raw.0:2;find_raw.1:4;byte_by_byte:17], 3,
+inst!(avx2_three_raw, [props=C01 xprops=C05+C14 tier=thorough cfg=x86std t=1800 role=avx2-raw uw=find_raw.0:2;find_raw.1:4;byte_by_byte:17], 3,
     x86::raw::<18>(1, 3, false));
 #[cfg(any(vcfg_x86std, vcfg_x86none, vcfg_x86alloc, vcfg_x86avx2, vcfg_x86rel))]
 inst!(avx2_three_rraw, [props=C02 xprops=C05+C14 tier=thorough cfg=x86std t=1800 role=avx2-raw uw=rfind_raw.0:2;rfind_raw.1:4;byte_by_byte:17], 3,
@@ -626,7 +626,7 @@ inst!(g2_one_count_80, [props=C07 xprops=C05+C14 tier=thorough cfg=x86std t=3600
     generic::count::<2, 81>(80));
 #[cfg(any(vcfg_x86std, vcfg_x86none, vcfg_x86alloc, vcfg_x86avx2, vcfg_x86rel))]
 inst!(avx2_two_raw, [props=C01+C14 xprops=C05 tier=quick cfg=x86std t=1800 role=avx2-raw uw=find_raw.0:2;find_raw.1:4;byte_by_byte:17], 3,
-    x86::raw::<18>(1, 2, false));
+    x86::raw::<10>(1, 2, false));
 #[cfg(any(vcfg_x86std, vcfg_x86none, vcfg_x86alloc, vcfg_x86avx2, vcfg_x86rel))]
 inst!(avx2_two_rraw, [props=C02 xprops=C05+C14 tier=thorough cfg=x86std t=1800 role=avx2-raw uw=find_raw.0:2;find_raw.1:4;byte_by_byte:17], 3,
     x86::raw::<40>(1, 2, true));
